@@ -72,12 +72,14 @@ type server struct {
 	out    *bufio.Reader
 	stderr *bytes.Buffer
 	served int
+	// procEnv: simulated environment in force while this process started
+	procEnv uint64
 }
 
-func (x *executor) newServer() (*server, error) {
-	s := &server{x: x, stderr: &bytes.Buffer{}}
+func (x *executor) newServer(procEnv uint64) (*server, error) {
+	s := &server{x: x, stderr: &bytes.Buffer{}, procEnv: procEnv}
 	s.cmd = exec.Command(x.worker, "serve", strconv.Itoa(x.nSites))
-	s.cmd.Env = append(s.cmd.Environ(), "GOMAXPROCS=2")
+	s.cmd.Env = append(s.cmd.Environ(), "GOMAXPROCS=2", "VERIF_PROC_ENV="+strconv.FormatUint(procEnv, 10))
 	var err error
 	if s.in, err = s.cmd.StdinPipe(); err != nil {
 		return nil, toolErrf("pipe: %v", err)
@@ -116,6 +118,11 @@ func (s *server) close() {
 type session struct {
 	x   *executor
 	srv *server
+	// refSrv computes pristine references: its process always starts in the
+	// fixed reference world (procEnv 0). procEnv is what scenario processes of
+	// this session start with.
+	refSrv  *server
+	procEnv uint64
 	// history: every scenario (as sent) that the current serving process has
 	// executed, oldest first. Cleared when the process is replaced. It is the
 	// "prelude" needed to replay a result that depends on what the process
@@ -135,26 +142,44 @@ func (ss *session) prelude() [][]byte {
 	return append([][]byte(nil), ss.history[:len(ss.history)-1]...)
 }
 
-func (ss *session) close() { ss.srv.close(); ss.srv = nil }
+func (ss *session) close() {
+	ss.srv.close()
+	ss.srv = nil
+	ss.refSrv.close()
+	ss.refSrv = nil
+}
 
 // run executes a scenario on the session's serving worker.
 func (ss *session) run(sc *proto.Scenario) (res *proto.Result, crashed bool, crashText string, err error) {
 	x := ss.x
-	if ss.srv != nil && ss.srv.cmd != nil && ss.srv.served >= maxServed {
-		ss.srv.close()
+	isRef := sc.Label == "ref"
+	slot := &ss.srv
+	want := ss.procEnv
+	if isRef {
+		slot, want = &ss.refSrv, 0
 	}
-	if ss.srv == nil || ss.srv.cmd == nil {
-		if ss.srv, err = x.newServer(); err != nil {
+	if *slot != nil && (*slot).cmd != nil && (*slot).served >= maxServed {
+		(*slot).close()
+	}
+	if *slot == nil || (*slot).cmd == nil {
+		if *slot, err = x.newServer(want); err != nil {
 			return nil, false, "", err
 		}
-		ss.history = nil
+		if !isRef {
+			ss.history = nil
+		}
 	}
-	s := ss.srv
+	s := *slot
+	if !isRef {
+		sc.ProcEnv = s.procEnv
+	}
 	in, err := json.Marshal(sc)
 	if err != nil {
 		return nil, false, "", toolErrf("marshal scenario: %v", err)
 	}
-	ss.history = append(ss.history, in)
+	if !isRef {
+		ss.history = append(ss.history, in)
+	}
 	x.runs.Add(1)
 	s.served++
 	type reply struct {
@@ -233,7 +258,7 @@ func (x *executor) runFresh(sc *proto.Scenario) (res *proto.Result, crashed bool
 	ctx, cancel := context.WithTimeout(context.Background(), x.timeout)
 	defer cancel()
 	cmd := exec.CommandContext(ctx, x.worker, "run", "-", strconv.Itoa(x.nSites))
-	cmd.Env = append(cmd.Environ(), "GOMAXPROCS=2")
+	cmd.Env = append(cmd.Environ(), "GOMAXPROCS=2", "VERIF_PROC_ENV="+strconv.FormatUint(sc.ProcEnv, 10))
 	cmd.Stdin = bytes.NewReader(in)
 	var stdout, stderr bytes.Buffer
 	cmd.Stdout = &stdout
@@ -310,7 +335,7 @@ func (x *executor) runSessionFresh(prelude [][]byte, sc *proto.Scenario) (res *p
 	ctx, cancel := context.WithTimeout(context.Background(), 4*x.timeout)
 	defer cancel()
 	cmd := exec.CommandContext(ctx, x.worker, "run", "-", strconv.Itoa(x.nSites))
-	cmd.Env = append(cmd.Environ(), "GOMAXPROCS=2")
+	cmd.Env = append(cmd.Environ(), "GOMAXPROCS=2", "VERIF_PROC_ENV="+strconv.FormatUint(sc.ProcEnv, 10))
 	cmd.Stdin = &in
 	var stdout, stderr bytes.Buffer
 	cmd.Stdout = &stdout
